@@ -20,16 +20,19 @@ def one(name):
     # copies: seedcheck overwrites patch.diff/demo.py in place
     p = tempfile.NamedTemporaryFile(suffix='.diff', delete=False); p.write(open(os.path.join(d, 'patch.diff'), 'rb').read()); p.close()
     q = tempfile.NamedTemporaryFile(suffix='.py', delete=False); q.write(open(os.path.join(d, 'demo.py'), 'rb').read()); q.close()
+    checks = ','.join(meta.get('checks_to_run') or [meta['property']])
     r = subprocess.run([os.path.join(VERIF, 'tools', 'seedcheck.py'), '--prop', meta['property'], '--name', name, '--patch', p.name,
-                        '--demo', q.name, '--note', note.name], capture_output=True, text=True)
+                        '--demo', q.name, '--note', note.name, '--checks', checks], capture_output=True, text=True)
     for f in (note.name, p.name, q.name):
         os.unlink(f)
     try:
         out = json.loads(r.stdout[r.stdout.index('{'):])
     except Exception:
         return name, 'ERROR', r.stdout[-300:] + r.stderr[-300:]
-    c = out.get('checks', {}).get(meta['property'], {})
-    return name, ('CONFIRMED' if out.get('confirmed') else 'NOT-CONFIRMED') + ' ' + ('DETECTED' if c.get('detected') else f"NOT-DETECTED(exit {c.get('exit')})"), c.get('first', '')[:160]
+    det = out.get('detected_by') or []
+    first = next((v.get('first', '') for v in out.get('checks', {}).values() if v.get('detected')), '')
+    exits = {k: v.get('exit') for k, v in out.get('checks', {}).items()}
+    return name, ('CONFIRMED' if out.get('confirmed') else 'NOT-CONFIRMED') + ' ' + (f'DETECTED by {det}' if det else f'NOT-DETECTED (exits {exits})'), first[:160]
 
 
 if __name__ == '__main__':
